@@ -80,6 +80,74 @@ func c16R6(c *Ctx, rule string) {
 			c.Check(rule, "getConn:returns-conn-of-target", c.P.InstrPos(ret), "getConn returns the pooled connection of this target or the one it just dialled to it", ok, "returns "+d, 1)
 		}
 	}
+	// the pool is keyed by the RESOLVED address: only getConn (which is given
+	// the resolved address) consults it, and getConnFromAddressProvider hands
+	// getConn the provider's answer for (id, target) – a lookup by the caller's
+	// possibly stale address can return a connection to a different server
+	c.WhoMay(rule, "call getPooledConn", c.P.CallsEverywhere(engine.Is("(*NetworkTransport).getPooledConn")), map[string]string{
+		"(*NetworkTransport).getConn": "lookup under the address that will be dialled",
+	})
+	if fn := c.Fn(rule, "(*NetworkTransport).getConnFromAddressProvider"); fn != nil {
+		ss := c.P.CallsIn(fn, engine.Is("(*NetworkTransport).getConn"))
+		ok := len(ss) == 1 && c.P.Arg(ss[0].Instr, 0) == "recv.getProviderAddressOrFallback(p1, p2)"
+		got := "no single getConn call"
+		if len(ss) == 1 {
+			got = "getConn(" + c.P.Arg(ss[0].Instr, 0) + ")"
+		}
+		c.Check(rule, "getConnFromAddressProvider:resolved-address", c.P.Pos(fn.Pos()), "the connection is obtained for the address the provider resolves (id, target) to", ok, got, 1)
+		for _, ret := range engine.RawReturnsOf(fn) {
+			d := c.P.D(engine.ReturnValues(ret)[0])
+			okr := strings.HasPrefix(d, "recv.getConn(recv.getProviderAddressOrFallback(p1, p2))")
+			c.Check(rule, "getConnFromAddressProvider:returns-that-connection", c.P.InstrPos(ret), "the result is getConn's result for the resolved address", okr, "returns "+d, 1)
+		}
+	}
+	// decoders accept every wire spelling the peers may use (both time
+	// formats): the handle given to codec.NewDecoder is a fresh zero
+	// MsgpackHandle that nobody configures – sharing the encoder's handle
+	// makes decoding depend on the LOCAL MsgpackUseNewTimeFormat setting
+	for _, name := range []string{"(*NetworkTransport).getConn", "(*NetworkTransport).handleConn"} {
+		fn := c.Fn(rule, name)
+		if fn == nil {
+			continue
+		}
+		ds := c.P.CallsIn(fn, engine.Is("github.com/hashicorp/go-msgpack/v2/codec.NewDecoder"))
+		if len(ds) == 0 {
+			c.Bad(rule, name+":decoder", c.P.Pos(fn.Pos()), "a codec.NewDecoder call", "none found")
+		}
+		for _, d := range ds {
+			h := engine.ArgValue(d.Instr, 1)
+			if mi, ok := h.(*ssa.MakeInterface); ok {
+				h = mi.X
+			}
+			a, isAlloc := h.(*ssa.Alloc)
+			configured := false
+			if isAlloc {
+				if refs := a.Referrers(); refs != nil {
+					for _, r := range *refs {
+						switch x := r.(type) {
+						case *ssa.FieldAddr:
+							configured = true
+						case *ssa.Store:
+							if x.Addr == ssa.Value(a) {
+								if _, zero := x.Val.(*ssa.Const); !zero {
+									configured = true
+								}
+							}
+						case ssa.CallInstruction:
+							if x != d.Instr.(ssa.CallInstruction) {
+								configured = true
+							}
+						case *ssa.MakeInterface:
+							if mrefs := x.Referrers(); mrefs != nil && len(*mrefs) > 1 {
+								configured = true
+							}
+						}
+					}
+				}
+			}
+			c.Check(rule, name+":decoder-handle-unconfigured", c.P.InstrPos(d.Instr), "the decoder's handle is a fresh zero MsgpackHandle used by nothing else (decoding does not depend on local encoder settings)", isAlloc && !configured, "handle = "+c.P.D(engine.ArgValue(d.Instr, 1)), 1)
+		}
+	}
 	if fn := c.Fn(rule, "(*NetworkTransport).returnConn"); fn != nil {
 		n := 0
 		engine.EachInstr(fn, func(in ssa.Instruction) {
@@ -182,6 +250,18 @@ func c16R1(c *Ctx, rule string) {
 		sender[k] = append(sender[k], pair{ifaceArgType(c, engine.ArgValue(s.Instr, 3)), ifaceArgType(c, engine.ArgValue(s.Instr, 4)), c.P.Name(s.Fn)})
 		got := c.P.Arg(s.Instr, 0) + ", " + c.P.Arg(s.Instr, 1) + ", _, " + c.P.Arg(s.Instr, 3) + ", " + c.P.Arg(s.Instr, 4)
 		c.Check(rule, "forwards-callers-objects "+c.P.Name(s.Fn), c.P.InstrPos(s.Instr), "the transport method sends the caller's own request to the caller's target and decodes into the caller's own response object", got == "p1, p2, _, p3, p4", "genericRPC("+got+")", 1)
+	}
+	// … and hands genericRPC's verdict back unchanged: candidates and leaders
+	// interpret transport errors (a pre-vote answered "unexpected command"
+	// counts as a grant from an old server), so a wrapper that rewrites one
+	// error into another changes who is believed to have answered what
+	for _, s := range c.P.CallsEverywhere(engine.Is("(*NetworkTransport).genericRPC")) {
+		for _, ret := range engine.RawReturnsOf(s.Fn) {
+			vals := engine.ReturnValues(ret)
+			d := c.P.D(vals[len(vals)-1])
+			ok := d == "nil" || strings.HasPrefix(d, "recv.genericRPC(")
+			c.Check(rule, "returns-genericRPC-result "+c.P.Name(s.Fn), c.P.InstrPos(ret), "the transport method returns genericRPC's error (or nil after checking it), never a different one", ok, "returns "+d, 1)
+		}
 	}
 	// direct sendRPC users
 	for _, s := range c.P.CallsEverywhere(engine.Is("sendRPC")) {
